@@ -3,7 +3,7 @@
 import json, os, shutil, subprocess, sys
 for d in sys.argv[1:]:
     name = os.path.basename(d.rstrip("/"))
-    r = subprocess.run(["/verif/tools/confirm_seed.sh", d], capture_output=True, text=True)
+    r = subprocess.run(["/verif/tools/confirm_seed.sh", d, os.environ.get("SEED_WT", "/tmp/wt/mine")], capture_output=True, text=True)
     ok = "CONFIRMED" in r.stdout
     print(name, "CONFIRMED" if ok else "REJECTED")
     if not ok:
